@@ -451,21 +451,34 @@ def setPanes (s : SW) (ok : Bool) (pre' : Bytes) : SW × Option E :=
   if s.sheetWritten then (s, some .colOrder)
   else if ok then ({ s with pre := pre' }, none) else (s, some .panes)
 
-/-- the externally rendered worksheet fields after `sheetData` (8..15, 17..38, table parts, 40) -/
+/-- external at Flush: `fields[i]` = what `bulkAppendFields(ws, i, i)` (reflection + `encoding/xml`) renders for
+field `i` of `xlsxWorksheet` (index 0 is the mutex), and the `<tableParts>` string `AddTable` left in the writer -/
 structure Epilog where
-  post1 : Bytes
-  post2 : Bytes
+  fields : List Bytes
   tableParts : Bytes
-  post3 : Bytes
   deriving DecidableEq, Repr
+
+def fieldBytes (e : Epilog) (i : Nat) : Bytes :=
+  match e.fields[i]? with
+  | some b => b
+  | none => []
+
+/-- `bulkAppendFields(w, ws, from, to)`: the fields with index `from ≤ i ≤ to`, ascending -/
+def bulk (e : Epilog) (r : Nat × Nat) : Bytes :=
+  (List.range' r.1 (r.2 + 1 - r.1)).flatMap (fieldBytes e)
 
 def mergeBlock (s : SW) : Bytes :=
   if s.mergeCount > 0 then
     lit "<mergeCells count=\"" ++ itoa s.mergeCount ++ lit "\">" ++ s.mergeCells ++ lit "</mergeCells>"
   else []
 
+/-- what `Flush` writes: the three `bulkAppendFields` ranges are the regenerated literals of the Go function
+(`Facts.C11.bulk_Flush`), the merge block and the table parts are hand-written between them -/
 def epilogBytes (s : SW) (e : Epilog) : Bytes :=
-  lit "</sheetData>" ++ e.post1 ++ mergeBlock s ++ e.post2 ++ e.tableParts ++ e.post3 ++ lit "</worksheet>"
+  match Facts.C11.bulk_Flush with
+  | [r1, r2, r3] =>
+    lit "</sheetData>" ++ bulk e r1 ++ mergeBlock s ++ bulk e r2 ++ e.tableParts ++ bulk e r3 ++ lit "</worksheet>"
+  | _ => []
 
 /-- `Flush` -/
 def flush (s : SW) (e : Epilog) : SW :=
